@@ -506,9 +506,15 @@ def check(prop, tier, seed):
     corpus = streams.load_corpus(prop)
     if corpus:
         stream_sets.insert(0, streams.StreamSet("corpus", "asan", corpus))
+    impl_by_stream = {}
     for ss in stream_sets:
         ts = time.time()
         impl, mod, err = run_cases(ss.cases, ss.cfg, os.path.join(rundir, ss.name), ss.extra_defs, ss.tag, ss.timeout, ss.env, phase2=ss.phase2)
+        if not err:
+            impl_by_stream[ss.name] = impl
+            if getattr(ss, "cross_with", None) and ss.cross_with in impl_by_stream:
+                # the reference is the other run of the same cases, not the model
+                mod = impl_by_stream[ss.cross_with]
         if err:
             corr_errors.append("%s: %s" % (ss.name, err))
             log("[%s] stream %s: ERROR %s" % (prop, ss.name, err[:1500]))
